@@ -37,4 +37,5 @@ def main():
                     print('     step [%s]'%show_guard(s['guard']))
                     for loc,v in s['post'].items(): print('         ',rec['labels'].get(loc),"' =",T.show(v))
                     print('          events',[ (e[0],)+tuple(T.show(x) if isinstance(x,tuple) else x for x in e[1:]) for e in s['events']])
-main()
+if __name__ == '__main__':
+    main()
